@@ -12,6 +12,13 @@ class Budget(Exception):
     pass
 
 
+for _k, _v in (('smt.random_seed', 7), ('nlsat.seed', 7), ('sat.random_seed', 7), ('smt.arith.random_initial_value', False)):
+    try:
+        z3.set_param(_k, _v)
+    except Exception:   # pragma: no cover
+        pass
+
+
 def frac_of(zv):
     """z3 numeric value -> Fraction (algebraic numbers are approximated to 1e-30)."""
     if z3.is_rational_value(zv):
@@ -48,8 +55,11 @@ class Stats(object):
 class Engine(object):
     """One engine per obligation.  `explore(fn)` re-runs fn once per feasible path."""
 
-    def __init__(self, timeout_ms=20000, max_paths=200000, max_int_forks=64):
+    def __init__(self, timeout_ms=20000, max_paths=200000, max_int_forks=64, branch_ms=4000):
         self.timeout_ms = timeout_ms
+        # feasibility checks of branches get a short budget: an undecided branch is explored (sound), it is the
+        # claim queries that need the long one
+        self.branch_ms = min(branch_ms, timeout_ms)
         self.max_paths = max_paths
         self.max_int_forks = max_int_forks
         self.stats = Stats()
@@ -103,7 +113,11 @@ class Engine(object):
 
     def _check(self, *assumptions):
         t = time.time()
-        r = self.solver.check(*assumptions)
+        self.solver.set('timeout', self.branch_ms)
+        try:
+            r = self.solver.check(*assumptions)
+        finally:
+            self.solver.set('timeout', self.timeout_ms)
         self.stats.solver_s += time.time() - t
         self.stats.queries += 1
         if r == z3.sat:
